@@ -24,6 +24,25 @@ check("C02",
       TRUST, "property-based testing: schema-driven generator + independent renderer, reference-model oracle (Hypothesis)",
       "DESIGN.md section 4, C02")
 
+DOC = "Generated-input search with Hypothesis over schema-driven document models and the shipped corpus; "
+for pid, text, tech in [
+    ("C01", DOC + "oracle: parse -> print -> parse round trip with exactly the two licences of the statement decided from the schema slot.",
+     "property-based testing: round-trip oracle over generated documents and corpus (Hypothesis)"),
+    ("C04", DOC + "oracle: second formatting pass is byte-identical, content identical, fresh printer / second interpreter give the same bytes.",
+     "property-based testing: idempotence / determinism oracle over documents x option sets (Hypothesis)"),
+    ("C05", DOC + "oracle: metamorphic - canonical vs drawn surface rendering of one model, and perturbed corpus files, load to equal dictionaries.",
+     "property-based testing: metamorphic relation over surface renderings (Hypothesis)"),
+    ("C06", DOC + "oracle: metamorphic - every option set loads to the default formatting's dictionary; grouping rule for separate_complex_types; full cross product in the thorough tier.",
+     "property-based testing: metamorphic relation over the formatter option product (Hypothesis + enumeration)"),
+    ("C16", DOC + "oracle: an independent reader of the printed text checks the layout contract line by line.",
+     "property-based testing: independent reader / validity predicate over documents x option sets (Hypothesis)"),
+    ("C17", "Exhaustive breadth-first exploration of every reachable state over a small key/value alphabet with every operation applied in every state, exhaustive operation sequences from the empty dict up to a length bound, and a Hypothesis rule-based state machine for long histories; oracle: reference model (OrderedDict keyed by lower-cased keys + default rule).",
+     "model-based testing: exhaustive small-scope enumeration + Hypothesis stateful machine against a reference dict"),
+    ("C18", "Generated-input search: Hypothesis draws nested dictionaries and type-compatible patches / search lists; oracle: reference implementation of the documented update / find laws, identity and immutability checks.",
+     "property-based testing: reference-implementation oracle (Hypothesis)"),
+]:
+    check(pid, text, TRUST, tech, "DESIGN.md section 4, " + pid)
+
 NOT_YET = {}
 
 
